@@ -5,6 +5,7 @@ import ast
 
 from ..algebra import NC, Poly, ToNC
 from ..report import AnalysisError
+from ..amatch import AM
 from ..srcmodel import norm
 from ..state import self_attr
 
@@ -96,11 +97,11 @@ def rule_b(ctx, side):
              "cannot increase)")
     m = ctx.model
     spec = {
-        "ColorBalance": dict(x0="self.balance_scaling.flatten()", unpack={"balance": "flat_balance.reshape((3, 3))"}, store={"balance_scaling": "opt_result.x.reshape((3, 3))"}, A="balance", b=None),
-        "WhiteBalance": dict(x0="np.diag(self.balance_scaling)", unpack={"balance": "np.diag(flat_balance)"}, store={"balance_scaling": "np.diag(opt_result.x)"}, A="balance", b=None),
+        "ColorBalance": dict(x0="self.balance_scaling.flatten()", unpack=["A = flat_balance.reshape((3, 3))"], store={"balance_scaling": "opt_result.x.reshape((3, 3))"}, b=False),
+        "WhiteBalance": dict(x0="np.diag(self.balance_scaling)", unpack=["A = np.diag(flat_balance)"], store={"balance_scaling": "np.diag(opt_result.x)"}, b=False),
         "AffineBalance": dict(x0="np.concatenate((self.balance_scaling.flatten(), self.balance_translation))",
-                              unpack={"balance_scaling": "flat_balance[:9].reshape((3, 3))", "balance_translation": "flat_balance[9:12]"},
-                              store={"balance_scaling": "opt_result.x[:9].reshape((3, 3))", "balance_translation": "opt_result.x[9:12]"}, A="balance_scaling", b="balance_translation"),
+                              unpack=["A = flat_balance[:9].reshape((3, 3))", "b = flat_balance[9:12]"],
+                              store={"balance_scaling": "opt_result.x[:9].reshape((3, 3))", "balance_translation": "opt_result.x[9:12]"}, b=True),
     }
     for cname, sp in spec.items():
         f = m.method(m.cls(MOD, cname), "find_balance")
@@ -110,24 +111,25 @@ def rule_b(ctx, side):
         ctx.need(len(obj) == 1, f"{f.qname}: objective function not found")
         o = obj[0]
         fp = o.args.args[0].arg
-        mins = [c for c in ast.walk(f.node) if isinstance(c, ast.Call) and norm(c.func) == "scipy.optimize.minimize"]
+        mins = [s_ for s_ in ast.walk(f.node) if isinstance(s_, ast.Assign) and isinstance(s_.value, ast.Call) and norm(s_.value.func) == "scipy.optimize.minimize" and isinstance(s_.targets[0], ast.Name)]
         ctx.need(len(mins) == 1, f"{f.qname}: scipy.optimize.minimize call not found")
-        call = mins[0]
+        call = mins[0].value
+        am = AM(f)
+        am.bind.update({"flat_balance": fp, "opt_result": mins[0].targets[0].id})
         ctx.ob(R, f.qname, "minimize(objective, x0 = current balance)", norm(call.args[0]) == o.name and norm(call.args[1]) == sp["x0"], norm(call.args[1]), call)
-        un = {norm(s.targets[0]): norm(s.value).replace(fp, "flat_balance") for s in o.body if isinstance(s, ast.Assign)}
-        ctx.ob(R, f.qname, "objective unpacks the parameter vector with the layout x0 was packed in", all(un.get(k) == v for k, v in sp["unpack"].items()), str(un), o)
-        app = [s for s in o.body if isinstance(s, ast.Assign) and any(isinstance(x, ast.BinOp) and isinstance(x.op, ast.MatMult) for x in ast.walk(s.value))]
-        ok = False
-        if len(app) == 1:
-            want = f"{src} @ {sp['A']}" if side == "left" else f"{sp['A']} @ {src}"
-            if sp["b"]:
-                want += f" + {sp['b']}"
-            ok = norm(app[0].value) == want
-        ctx.ob(R, f.qname, "objective applies the candidate on the same operand side as apply_balance", ok, norm(app[0].value) if app else "", o)
-        rets = [norm(r.value) for r in ast.walk(o) if isinstance(r, ast.Return)]
-        ctx.ob(R, f.qname, "objective is the squared swatch residual", len(rets) == 1 and rets[0] == f"np.sum(({norm(app[0].targets[0]) if app else '?'} - {f.params[2]}) ** 2)", str(rets), o)
+        un_ok = all(am.has(o, t) is not None for t in sp["unpack"])
+        ctx.ob(R, f.qname, "objective unpacks the parameter vector with the layout x0 was packed in", un_ok, str(am.show()), o)
+        want = f"{src} @ A" if side == "left" else f"A @ {src}"
+        if sp["b"]:
+            want += " + b"
+        ap_ok = un_ok and am.has(o, f"balanced = {want}") is not None
+        n_mm = sum(1 for x in ast.walk(o) if isinstance(x, ast.BinOp) and isinstance(x.op, ast.MatMult))
+        ctx.ob(R, f.qname, "objective applies the candidate on the same operand side as apply_balance", ap_ok and n_mm == 1, str(am.show()), o)
+        n_ret = sum(1 for r in ast.walk(o) if isinstance(r, ast.Return))
+        ctx.ob(R, f.qname, "objective is the squared swatch residual", ap_ok and n_ret == 1 and am.has(o, f"return np.sum((balanced - {f.params[2]}) ** 2)") is not None, "", o)
         st = {self_attr(s.targets[0]): norm(s.value) for s in f.node.body if isinstance(s, ast.Assign) and self_attr(s.targets[0])}
-        ctx.ob(R, f.qname, "result is unpacked with the same layout", st == sp["store"], str(st), f.node)
+        want_st = {k: v.replace("opt_result", mins[0].targets[0].id) for k, v in sp["store"].items()}
+        ctx.ob(R, f.qname, "result is unpacked with the same layout", st == want_st, str(st), f.node)
     ctx.floor(R, 3)
 
 
@@ -174,17 +176,19 @@ def rule_d(ctx):
         if isinstance(n, ast.If) and norm(n.test) == "self.balancing == 'darsia'":
             branch = n.body
     ctx.need(branch is not None, "ColorCorrection.correct_array: darsia branch not found")
-    seq = []
-    for s in branch:
-        for c in ast.walk(s):
-            if isinstance(c, ast.Call) and norm(c.func) in ("balance.find_balance", "balance.apply_balance", "darsia.AdaptiveBalance"):
-                cond = norm(s.test) if isinstance(s, ast.If) else ""
-                seq.append((norm(c.func), [norm(a) for a in c.args], {k.arg: norm(k.value) for k in c.keywords}, cond))
-    ok = (len(seq) == 4 and seq[0][0] == "darsia.AdaptiveBalance"
-          and seq[1][:2] == ("balance.find_balance", ["swatches[-1]", "reference_swatches[-1]"]) and seq[1][2] == {"mode": "'diagonal'"} and seq[1][3] == "self.whitebalancing"
-          and seq[2][:2] == ("balance.find_balance", ["swatches[:-1]", "reference_swatches[:-1]"]) and seq[2][2] == {"mode": "'affine' if self.colorbalancing == 'affine' else 'linear'"}
-          and seq[3][0] == "balance.apply_balance")
-    ctx.ob(R, f.qname, "AdaptiveBalance(); [diagonal on last row]; affine|linear on the other rows; apply_balance(image)", ok, str(seq)[:300], f.node)
+    am = AM(f)
+    core = [s for s in branch if not (isinstance(s, ast.Assign) and norm(s.value).startswith("skimage.img_as_float("))]
+    conv = [s for s in branch if s not in core]
+    ok = am.eq_block(core, [
+        "balance = darsia.AdaptiveBalance()",
+        "if self.whitebalancing:\n    balance.find_balance(swatches[-1], reference_swatches[-1], mode='diagonal')",
+        "balance.find_balance(swatches[:-1], reference_swatches[:-1], mode='affine' if self.colorbalancing == 'affine' else 'linear')",
+        f"corrected_img = balance.apply_balance({f.params[1]})",
+    ]) and len(conv) <= 1
+    # the two swatch sets are the measured ones and the reference ones (first argument = source, second = destination)
+    ok2 = am.has(f.node, "reference_swatches = self.colorchecker.swatches_rgb") is not None
+    ctx.ob(R, f.qname, "AdaptiveBalance(); [diagonal on last row]; affine|linear on the other rows; apply_balance(image)", ok, str([norm(x)[:80] for x in core]), f.node)
+    ctx.ob(R, f.qname, "destination swatches are the colour checker's reference swatches", ok2, str(am.show()), f.node)
     ctx.floor(R, 1)
 
 
